@@ -68,8 +68,8 @@ theorem Inv.free {s : State} (hI : Inv s) {a : Actor} {n : Nat} {p : Pc} (hp : (
     · inv_simp; grind [upd, updA, Pc.post]
   case placed => inv_auto
   case freshHolder => inv_auto
-  case scanL0 => inv_auto
-  case unlockL0 => inv_auto
+  case scanL0 => unfold ScanL0 at *; inv_auto
+  case unlockL0 => unfold ScanL0 UnlockL0 at *; inv_auto
   case oScanOk => inv_auto
   case oNoneOk => inv_auto
   case aUnlockOk => inv_auto
